@@ -7,6 +7,8 @@ CONSTANTS
     ColSets = {{"x"}}
     Kinds = {"time_course"}
     FailModes = {"intfail"}
+    LabelSchemes = {"shuffled"}
+    KeyedByLabel = FALSE
     NameSchemes = {"plain"}
     Y0s = {0}
     Y0Again = FALSE
